@@ -7,7 +7,8 @@ open Drand Drand.Store Drand.Chain Drand.Beacon.Sync
 
 /-! Symbolic beacons: the harness maps real signatures to these byte strings and back, so the model never sees BLS.
 `[1,r]` true signature of round r, `[2,r]` a corrupted copy of it, `[3,r]` a signature on round r's message by a
-foreign key, `[0,0]` the genesis seed, `[9,9]` junk. -/
+foreign key, `[0,0]` the genesis seed, `[9,9]` junk, `[4,r]` the torn record of round r (the first half of the stored
+value: undecodable JSON in the untrimmed bolt format, half a signature in the trimmed one). -/
 def sigT (r : Nat) : Bytes := [1, UInt8.ofNat r]
 def sigS (r : Nat) : Bytes := [2, UInt8.ofNat r]
 def sigO (r : Nat) : Bytes := [3, UInt8.ofNat r]
@@ -48,6 +49,7 @@ structure SyncSt where
   rc : Bool := false
   rg : Bool := false
   fr : Bool := false
+  lc : Bool := false
   labels : Labels := {}
   nmax : Nat := 0
   run : RunState := ⟨0, true⟩
@@ -56,22 +58,26 @@ structure SyncSt where
 
 def SyncSt.trimPrev (s : SyncSt) : Bool := s.backend == .trimmed && s.chained && s.mode == .participant
 
-/-- what `Get(r)` of the back-end returns for the abstract content `base` -/
-def viewGet (s : SyncSt) (base : BoltState) (r : Nat) : Option Beacon :=
+def isTorn (b : Beacon) : Bool := match b.sig with | [4, _] => true | _ => false
+
+/-- what `Get(r)` of the back-end returns for the abstract content `base`: the untrimmed store decodes the JSON value
+(a torn one is an error that is not ErrNoBeaconStored) and hands out the round *the record carries*; the trimmed store
+labels with the key and, when previous signatures are required, rebuilds the previous signature from round r−1 -/
+def viewGet (s : SyncSt) (base : BoltState) (r : Nat) : GetRes :=
   match lookup r base with
-  | none => none
+  | none => .notStored
   | some b =>
-    if s.backend == .bolt then some b
+    if s.backend == .bolt then (if isTorn b then .otherErr else .ok b)
     else if s.trimPrev && decide (r > 0) then
       match lookup (r - 1) base with
-      | none => none
-      | some p => some ⟨r, b.sig, p.sig⟩
-    else some ⟨r, b.sig, []⟩
+      | none => .notStored
+      | some p => .ok ⟨r, b.sig, p.sig⟩
+    else .ok ⟨r, b.sig, []⟩
 
 def viewLastErr (s : SyncSt) (base : BoltState) : Bool :=
   match base.getLast? with
   | none => true
-  | some (k, _) => s.trimPrev && decide (k > 0) && (lookup (k - 1) base).isNone
+  | some (k, b) => (s.backend == .bolt && isTorn b) || (s.trimPrev && decide (k > 0) && (lookup (k - 1) base).isNone)
 
 def SyncSt.cfg (s : SyncSt) : Cfg :=
   { verify := labelVerify s.chained s.nmax s.labels, lastErr := viewLastErr s, mode := s.mode, roundCheck := s.rc, rangeCheck := s.rg, followRetry := s.fr }
@@ -160,7 +166,7 @@ def syncStep (s : SyncSt) (f : List String) : SyncSt × String :=
     let base := (List.range' 1 (head.toNat?.getD 0)).foldl
       (fun acc r => Bolt.put acc ⟨r, sigT r, truePrev chained r⟩) base0
     ({ chained, mode := if m = "follow" then .follow else .participant,
-       backend := if be = "bolt" then .bolt else .trimmed, rc := flag rc, rg := flag rg, fr := flag fr,
+       backend := if be = "bolt" then .bolt else .trimmed, rc := flag rc, rg := flag rg, fr := flag fr, lc := labels.contains "L=1",
        labels := parseLabels labels, nmax := nn.toNat?.getD 0 + 10, node := ⟨Stack.build chained base, [], []⟩ }, "ok")
   | "sync" :: upTo :: perm :: peers =>
     let r := sync s.cfg "self" 0 (upTo.toNat?.getD 0) false s.node (peersAt s.chained 0 perm peers)
@@ -178,7 +184,7 @@ def syncStep (s : SyncSt) (f : List String) : SyncSt × String :=
     ({ s with node := r.1 }, report s s.node r.1 res r.2.2)
   | ["check", upTo] =>
     if viewLastErr s s.node.st.base then (s, "err") else
-    let l := checkPast s.cfg.verify (viewGet s s.node.st.base) s.node.head (upTo.toNat?.getD 0)
+    let l := checkPast s.lc s.cfg.verify (viewGet s s.node.st.base) s.node.head (upTo.toNat?.getD 0)
     (s, "faulty=" ++ joinOr "." (l.map toString))
   | "follow" :: upTo :: attempts =>
     -- one token per loop iteration: perm;peer;peer… ; iteration k uses script k of every peer
@@ -196,9 +202,29 @@ def syncStep (s : SyncSt) (f : List String) : SyncSt × String :=
     match r.toNat? with
     | some r => ({ s with node := { s.node with st := { s.node.st with base := Bolt.del s.node.st.base r } } }, "ok")
     | none => (s, "bad-op")
+  -- `tear r`: the record of round r is cut in half on disk
+  | ["tear", r] =>
+    match r.toNat? with
+    | some r =>
+      match lookup r s.node.st.base with
+      | some b => ({ s with node := { s.node with st := { s.node.st with base := insert r ⟨b.round, [4, UInt8.ofNat r], b.prev⟩ s.node.st.base } } }, "ok")
+      | none => (s, "none")
+    | none => (s, "bad-op")
+  -- `relabel r j` (untrimmed format only): the round written inside the record of round r becomes j
+  | ["relabel", r, j] =>
+    match r.toNat?, j.toNat? with
+    | some r, some j =>
+      if s.backend != .bolt then (s, "unsupported") else
+      match lookup r s.node.st.base with
+      | some b => if isTorn b then (s, "none") else
+        ({ s with node := { s.node with st := { s.node.st with base := insert r ⟨j, b.sig, b.prev⟩ s.node.st.base } } }, "ok")
+      | none => (s, "none")
+    | _, _ => (s, "bad-op")
   | ["scan", upTo] =>
     let rs := (List.range ((upTo.toNat?.getD 0) + 1)).filterMap fun r =>
-      (viewGet s s.node.st.base r).map fun b => s!"{b.round}:{toHex b.sig}:{toHex b.prev}"
+      match viewGet s s.node.st.base r with
+      | .ok b => some ((if b.round = r then s!"{r}" else s!"{r}={b.round}") ++ s!":{toHex b.sig}:{toHex b.prev}")
+      | _ => none
     (s, s!"len={s.node.st.base.length} " ++ joinOr "," rs)
   | ["runinit", period] => ({ s with run := ⟨0, true⟩, runPeriod := period.toNat?.getD 1 }, s!"ok factor={Gen.syncExpiryFactor}")
   | ["req", now, last, upTo] =>
